@@ -167,6 +167,9 @@ def splitLine : Bytes → Bytes × Bytes
   | [] => ([], [])
   | c :: rest => if c = 10 then ([], rest) else let r := splitLine rest; (c :: r.1, r.2)
 
+/-- `bufio.ScanLines` (the record splitter for RS = "\n") drops one CR at the end of a line -/
+def dropCR (l : Bytes) : Bytes := if l.getLast? = some 13 then l.dropLast else l
+
 def step (b : Beh) (s : St) : Op → St × Ret
   | .print c =>
     let r := writeOut s c
@@ -221,7 +224,7 @@ def step (b : Beh) (s : St) : Op → St × Ret
         if st.buf = [] then (s, .line 0 [])
         else
           let l := splitLine st.buf
-          ({ s with streams := set n { st with buf := l.2 } s.streams }, .line 1 l.1)
+          ({ s with streams := set n { st with buf := l.2 } s.streams }, .line 1 (dropCR l.1))
       else (s, .err .readFromWriter)
     | none =>
       match find n s.fs with
@@ -231,7 +234,7 @@ def step (b : Beh) (s : St) : Op → St × Ret
           ({ s with streams := (n, { kind := .rd, buf := [], sent := [], base := [], log := [] }) :: s.streams }, .line 0 [])
         else
           let l := splitLine data
-          ({ s with streams := (n, { kind := .rd, buf := l.2, sent := [], base := [], log := [] }) :: s.streams }, .line 1 l.1)
+          ({ s with streams := (n, { kind := .rd, buf := l.2, sent := [], base := [], log := [] }) :: s.streams }, .line 1 (dropCR l.1))
   | .exit code => (s, .exit code)
   | .fail => (s, .err .divZero)
 
